@@ -369,7 +369,10 @@ pub fn prepare(sb: &Sandbox, case: &Case) -> (Files, Vec<OpSpec>, Vec<String>, V
                 opsv.push(OpSpec { entry: cmd.into(), args: a });
             }
         }
-        if sep.ok {
+        // (the link operation is exercised whenever every package built, even if the fault-free
+        // link itself failed or crashed: that is then reported by its baseline run)
+        let builds_ok = sep.ok || sep.failure.as_ref().map(|(step, _)| step == "link").unwrap_or(false);
+        if builds_ok {
             let mut a = vec![s("goml"), s("link"), s("--input")];
             a.extend(order.iter().map(|n| format!("{{ROOT}}/out/{n}.core")));
             a.push(s("--output"));
